@@ -66,6 +66,16 @@ Definition set_ann (e : expr) (a : ann) : expr :=
   | ECond _ c x y => ECond a c x y | EArray _ es => EArray a es | EMap _ ps => EMap a ps | EPair _ k v => EPair a k v
   end.
 
+(* MatchesNode: the parser compiles a literal pattern ahead of time into the Regexp field.  That
+   pre-compiled pattern may stand for the right operand only while the right operand still IS the
+   string literal it was compiled from (a visitor may have replaced it): Some p exactly when
+   re = Some p and r is the literal p. *)
+Definition re_const (re : option string) (r : expr) : option string :=
+  match re, r with
+  | Some p, EStr _ q => if String.eqb p q then Some p else None
+  | _, _ => None
+  end.
+
 Definition opt_list {A} (o : option A) : list A := match o with Some x => [x] | None => [] end.
 
 (* REFERENCE: the Node-typed slots of every node kind, in declaration (= source) order. *)
